@@ -80,7 +80,7 @@ GEOMS = {
 
 
 class HSInit(Harness):
-    """params: D, geom (name per coordinate), cons (None|'bool'), nonlinear (bool)"""
+    """params: D, geom (name per coordinate), cons (None|'bool'), nonlinear (bool), user (noise-mode options as passed by a user)"""
     name = "H-SB/init"
     functions = (badsmod.BADS._init_optim_state_, gfmod.force_to_grid, gfmod.grid_units, vtmod.VariableTransformer.__call__,
                  vtmod.VariableTransformer.inverse_transf)
@@ -93,7 +93,8 @@ class HSInit(Harness):
         D = p["D"]
         geoms = p["geom"]
         cons = p.get("cons")
-        opts = cached_options(D, {"nonlinear_scaling": p.get("nonlinear", True)})
+        user = dict(p.get("user") or {})     # noise-mode options exactly as a user would pass them
+        opts = cached_options(D, dict(user, nonlinear_scaling=p.get("nonlinear", True)))
         rb = Rebinder(eng.concrete, stubs=stubs())
         B = rb.cls(badsmod.BADS)
         self_ = B.__new__(B)
@@ -141,6 +142,9 @@ class HSInit(Harness):
             else:
                 out.ob("valid_definition_not_rejected_by_init", False)
             return out
+        if "user" in p:
+            want = 2 if user.get("specify_target_noise") else (1 if user.get("uncertainty_handling") else 0)
+            out.ob("noise_mode_follows_user_options", st["uncertainty_handling_level"] == want)
         if cons:
             out.ob("accepted_snapped_x0_feasible", O.And(*[O.Not(a) for _, ans in cons_calls for a in ans]))
             out.ob("snapped_x0_feasibility_checked", len(cons_calls) >= 1)
